@@ -15,7 +15,7 @@ LEVEL_TEXT = ("The Lean mirror of Resolver.glob (pattern translation to the thre
 LEVEL_NOTE = ("After the fix: commits for D4 ('..' dead end below '**' swallowed by an enclosing wildcard), D6 (identity de-dup) and D8 "
               "(ChildResolverError for an existing child when the rest of the pattern matched nothing). Trusted: Lean kernel, standard "
               "axioms; the mirror; CPython's re for the fragment '.*', '.', escaped literal with flags (?ms), and IGNORECASE / str.upper() on the model's alphabet "
-              "(ASCII plus the 14 letters of Str.caseTable, among them the KELVIN, ANGSTROM and OHM signs on which the two foldings differ; "
+              "(ASCII plus the 17 letters of Str.caseTable/Str.multiUpper, among them the KELVIN, ANGSTROM and OHM signs on which the two foldings differ; "
               "the table is compared with the running interpreter through the library by the `casetable` case of every run).")
 MODULES = ['Anytree.Props.C08', 'Anytree.Props.C08b']
 THEOREMS = [
@@ -40,6 +40,7 @@ THEOREMS = [
     ("Anytree.CaseFold.caseRegular_regularAlphabet", "full"),
     ("Anytree.CaseFold.caseRegular_ascii", "full"),
     ("Anytree.CaseFold.signs_irregular", "full"),
+    ("Anytree.CaseFold.sharp_s_irregular", "full"),
     ("Anytree.CaseFold.not_caseRegular_alphabet", "full"),
     ("Anytree.Spec.caseAgree_of_regular", "full"),
     ("Anytree.Spec.caseAgree_of_ascii", "full"),
